@@ -242,40 +242,103 @@ def truth_table(e, atoms=None):
 
 def check_forwarder(fn, method_decl, inner_pred=None):
     """fn's body must call `method_decl` (declared trait method path, e.g.
-    std::io::Write::flush) exactly once on every path, on a receiver reached
-    through self, pass its own remaining parameters through in order, and return
-    that call's result.  Returns (ok, detail)."""
-    cs = fn.calls(lambda p: p == method_decl or (p or "").endswith("::" + method_decl.rsplit("::", 1)[-1]) and _trait_of(p) == _trait_of(method_decl))
-    cs = [c for c in cs if c.decl == method_decl]
-    if len(cs) != 1:
-        return False, "expected exactly one forwarding call to %s, found %d" % (method_decl, len(cs))
-    c = cs[0]
-    if fn.in_loop(c.block):
-        return False, "forwarding call is inside a loop"
-    # on every path to return
-    for r in fn.return_blocks():
-        if not fn.dominates(c.block, r):
+    std::io::Write::flush) exactly once on every path (one call per enum arm is
+    fine), on a receiver reached through self, pass its own remaining parameters
+    through in order, and return that call's result.  Returns (ok, detail)."""
+    cs = [c for c in fn.calls() if c.decl == method_decl]
+    if not cs:
+        return False, "no forwarding call to %s" % method_decl
+    blocks = {c.block for c in cs}
+    for c in cs:
+        if fn.in_loop(c.block):
+            return False, "forwarding call is inside a loop"
+        if fn.reach(c.block) & blocks:
+            return False, "two forwarding calls on one path"
+    # every return is reached only through a forwarding call
+    r0 = fn.reach(0, avoid=blocks, include_src=True)
+    for rb in fn.return_blocks():
+        if rb in r0:
             return False, "a path reaches return without the forwarding call"
-    args = c.arg_exprs()
-    recv = strip(args[0])
-    if not any(x == ("param", 1) for x in walk(recv)):
-        return False, "receiver %s is not reached through self" % show(recv)
-    if inner_pred is not None and not inner_pred(recv):
-        return False, "receiver %s is not the wrapped writer" % show(recv)
-    for i, a in enumerate(args[1:], start=2):
-        if strip(a) != ("param", i):
-            return False, "argument %d is %s, not the wrapper's own parameter" % (i, show(a))
-    if len(args) != fn.nargs:
-        return False, "forwarding call takes %d args, wrapper has %d params" % (len(args), fn.nargs)
+    recvs = []
+    for c in cs:
+        args = c.arg_exprs()
+        recv = deep_strip_(args[0])
+        if not any(x == ("param", 1) for x in walk(recv)):
+            return False, "receiver %s is not reached through self" % show(recv)
+        if inner_pred is not None and not inner_pred(recv):
+            return False, "receiver %s is not the wrapped writer" % show(recv)
+        for i, a in enumerate(args[1:], start=2):
+            if strip(a) != ("param", i):
+                return False, "argument %d is %s, not the wrapper's own parameter" % (i, show(a))
+        if len(args) != fn.nargs:
+            return False, "forwarding call takes %d args, wrapper has %d params" % (len(args), fn.nargs)
+        recvs.append(show(recv, 3))
     ret = fn.local_expr(0)
-    if not (ret[0] == "call" and ret[3] == c.block):
-        return False, "return value %s is not the forwarded call's result" % show(ret)
-    others = [x for x in fn.calls() if x.block != c.block and x.callee not in TRANSPARENT_CALLS
+    alts = ret[1] if ret[0] == "phi" else (ret,)
+    if not all(a[0] == "call" and len(a) > 3 and a[3] in blocks for a in alts) or len(alts) != len(cs):
+        return False, "return value %s is not the forwarded call's result" % show(ret, 3)
+    others = [x for x in fn.calls() if x.block not in blocks and x.callee not in TRANSPARENT_CALLS
               and not (x.callee or "").endswith("deref_mut") and not (x.callee or "").endswith("::deref")]
     if others:
         return False, "extra call(s) in forwarder: %s" % ", ".join(o.callee for o in others)
-    return True, "forwards to %s on %s" % (method_decl, show(recv))
+    return True, "forwards to %s on %s" % (method_decl, " | ".join(recvs))
+
+
+def deep_strip_(e):
+    from .core import deep_strip
+    return deep_strip(e)
 
 
 def _trait_of(p):
     return (p or "").rpartition("::")[0]
+
+
+# ---- decision tables over loop-free CFGs -----------------------------------
+
+def decision_walk(fn, choose, watch_locals=(), start=0, limit=4096):
+    """Enumerate the decision outcomes of a loop-free region: starting at `start`,
+    follow the CFG; at each switch ask choose(SwitchInfo) for the labels to follow
+    (None = all edges).  Returns a list of outcomes, one per maximal walk:
+    {'end': block, 'last': {local: (block, rvalue-expr)}, 'trace': [(switch_block, label)], 'calls': [blocks]}.
+    This is a finite case split over branch labels (a truth table), not an execution:
+    no values are computed beyond what `choose` decides."""
+    out = []
+    stack = [(start, {}, [], [], frozenset())]
+    n = 0
+    while stack:
+        b, last, trace, calls, seen = stack.pop()
+        n += 1
+        if n > limit:
+            raise ShapeUnrecognised("decision table too large")
+        if b in seen:
+            raise ShapeUnrecognised("decision_walk: loop reached at bb%d" % b)
+        seen = seen | {b}
+        last = dict(last)
+        for s in fn.stmts(b):
+            if s["k"] == "assign" and not s["lhs"]["p"] and s["lhs"]["l"] in watch_locals:
+                last[s["lhs"]["l"]] = (b, fn._rvalue(s["rv"], frozenset(), 30, b))
+        t = fn.term(b)
+        if t["k"] == "call":
+            calls = calls + [b]
+            if not t["dest"]["p"] and t["dest"]["l"] in watch_locals:
+                last[t["dest"]["l"]] = (b, fn._call_expr(t, b, frozenset(), 30))
+        if t["k"] == "switch":
+            si = SwitchInfo(fn, b)
+            want = choose(si)
+            took = False
+            for lab, tgt in si.labelled_edges():
+                if isinstance(lab, tuple) and lab and lab[0] == "otherwise" and not lab[1]:
+                    continue  # unreachable otherwise-arm of an exhaustive enum match
+                if want is None or lab in want:
+                    took = True
+                    stack.append((tgt, last, trace + [(b, lab)], calls, seen))
+            if not took:
+                out.append({"end": b, "last": last, "trace": trace, "calls": calls, "stuck": True})
+            continue
+        succ = fn.succ[b]
+        if not succ:
+            out.append({"end": b, "last": last, "trace": trace, "calls": calls})
+            continue
+        for sx in succ:
+            stack.append((sx, last, trace, calls, seen))
+    return out
